@@ -203,7 +203,7 @@ def dump_body(b, out=None):
 # ------------------------------------------------------------------ crate / body wrappers
 
 class Crate:
-    def __init__(self, data):
+    def __init__(self, data, lower=False):
         self.data = data
         self.name = data["crate"]
         self.bodies = {}
@@ -215,6 +215,11 @@ class Crate:
         else:
             self.inlined, self.inlined_async = {}, {}
         data["_inlined"] = True
+        # second representation: Option/Result/bool combinators rewritten into switches (inline.py)
+        self.lowered = {}
+        if lower and not data.get("_lowered"):
+            self.lowered = inline.lower_combinators(data["bodies"], data.get("adts"))
+            data["_lowered"] = True
         self.absorbed = {}
         for b in data["bodies"]:
             if b.get("absorbed"):
@@ -550,6 +555,15 @@ def _byte_place(o):
     return None
 
 
+def _deref_local(o):
+    """local l if the operand reads `*l` (nothing but derefs): the value behind a reference.  A reference local is
+    only ever "known" through a pin (the rule says: this reference points at the byte under case analysis)."""
+    p = op_place(o) if isinstance(o, dict) else None
+    if p is not None and p["p"] and all(e == "deref" for e in p["p"]):
+        return p["l"]
+    return None
+
+
 def _known_operand(o, known):
     """("i", n) / ("b", x) value of an operand if it is a constant, a local with known value, or a pinned input
     byte (key ("byte", local, index) in `known`)."""
@@ -563,6 +577,9 @@ def _known_operand(o, known):
     bp = _byte_place(o)
     if bp is not None:
         return known.get(("byte",) + bp)
+    dl = _deref_local(o)
+    if dl is not None and known.get(dl, ("?",))[0] == "i":
+        return known[dl]
     return None
 
 
@@ -603,6 +620,8 @@ def bool_transfer(body, bb, known, pins=None):
                     pay = known.get((src, "payload"))
                 elif src is None and _byte_place(o) is not None and ("byte",) + _byte_place(o) in known:
                     val = known[("byte",) + _byte_place(o)]
+                elif src is None and _deref_local(o) is not None and known.get(_deref_local(o), ("?",))[0] == "i":
+                    val = known[_deref_local(o)]
                 elif src is None:
                     # `x = move (y as Variant).0`: the payload of a value built on this path
                     pl = op_place(o)
@@ -704,6 +723,8 @@ def bool_switch_target(body, bb, known):
     if l is None:
         bp = _byte_place(t["d"])
         l = ("byte",) + bp if bp is not None else None
+        if l is None and _deref_local(t["d"]) is not None and known.get(_deref_local(t["d"]), ("?",))[0] == "i":
+            l = _deref_local(t["d"])
     if l is None or l not in known:
         return None
     k = known[l]
